@@ -56,6 +56,10 @@ def configs(tier):
                         _split=(4 if region == "box" else 0)))
         out.append(dict(region=region, layout="legacy", uo="cm", us="cm", n=1, nopos="other"))
     out.append(dict(region="box", layout="mesh-only", uo="cm", us="au", n=1, nopos="same", us_y="cm", us_z="m", _split=3))
+    # the extraction under check is the SECOND one made with the same radius / size / origin objects, which were updated in place
+    # (radius *= 3; for the box dx *= 3 and origin *= 2) after the first: nothing converted or selected for the first call may be reused
+    for region, uo, us in (("sphere", "cm", "pc"), ("sphere", "cm", "cm"), ("box", "cm", "pc")):
+        out.append(dict(region=region, layout="mesh-only", uo=uo, us=us, n=1, nopos="same", warm=True, _split=(4 if region == "box" else 0)))
     if tier != "quick":
         out.append(dict(region="sphere", layout="loader", uo="au", us="pc", n=3, nopos="same", _split=4))
     return out
@@ -117,6 +121,19 @@ def body(m, cfg):
         before[name] = {k: ([m.vals(c._array) for c in (C.vcomps(g[k]).values() if C.is_vec(g[k]) else [g[k]])], str(g[k].unit), id(g[k]))
                         for k in g.keys()}
     f = osyris.extract_sphere if region == "sphere" else osyris.extract_box
+    if cfg.get("warm"):
+        tag += ":after-inplace-update"
+        with warnings.catch_warnings():
+            warnings.simplefilter("ignore")
+            f(ds, **args)
+        first = "radius" if region == "sphere" else "dx"
+        a0 = args[first]
+        a0 *= 3.0
+        m.require(args[first] is a0, "in-place update keeps the object", key=f"harness:{tag}")
+        sizes[0] = sizes[0] * 3.0
+        if region == "box":                 # (for the sphere a second moving quantity makes the distance queries too hard for nlsat)
+            origin *= 2.0
+            ov = [t * 2.0 for t in ov]
     try:
         with warnings.catch_warnings():
             warnings.simplefilter("ignore")
